@@ -243,10 +243,19 @@ namespace simpl
     }
     for (int pn : params)
       listed.push_back(mk_species(pn, true));
+    // the listing is brought into its order by moves (as std::sort / std::reverse of a species list would): a species
+    // keeps all its attributes - name, tolerance property, parameterisation - wherever it is moved
+    {
+      // the list is first held in the opposite order (an element-wise copy), then reversed in place by moves
+      std::vector<micm::Species> backwards(listed.rbegin(), listed.rend());
+      std::reverse(backwards.begin(), backwards.end());
+      listed = std::move(backwards);
+    }
     micm::Phase gas{ listed };
     if (m.other_phase())
     {
-      micm::Phase aq{ std::vector<micm::Species>{ mk_species(m.names[0], false, 7.0e-5), [] { micm::Species w("w"); w.SetProperty("absolute tolerance", 3.0e-9); return w; }() } };
+      // a phase with a name of its own, stored under another key: the key is what names its species
+      micm::Phase aq{ "droplets", std::vector<micm::Species>{ mk_species(m.names[0], false, 7.0e-5), [] { micm::Species w("w"); w.SetProperty("absolute tolerance", 3.0e-9); return w; }() } };
       sys = micm::System(micm::SystemParameters{ .gas_phase_ = gas, .phases_ = { { "aq", aq } } });
     }
     else
@@ -700,6 +709,18 @@ namespace simpl
       }
     }
     // C12 / C14: all configurations agree by species name
+    // every mechanism, listing and configuration of this scenario is valid: an exception from Build, the setters or
+    // Solve is a refusal of valid input, in whichever configuration (or in all of them alike)
+    for (std::size_t i = 0; i < outs.size(); ++i)
+      if (!outs[i].error.empty())
+      {
+        std::string e = outs[i].error;
+        for (auto& ch : e)
+          if (ch == ' ')
+            ch = '_';
+        out.tok("ORACLE_VALID_INPUT_REFUSED:" + e);
+        break;
+      }
     for (std::size_t i = 1; i < outs.size(); ++i)
     {
       if (outs[i].error != outs[0].error)
@@ -924,6 +945,7 @@ namespace simpl
     using StateT = decltype(shared);
     const std::vector<double> base_atol = shared.absolute_tolerance_;
     double atol_scale = 1.0;
+    bool broadcast_atol = false;
     auto load = [&](StateT& st, const Problem& pb)
     {
       st.SetRelativeTolerance(pb.rtol);
@@ -932,6 +954,8 @@ namespace simpl
         std::vector<double> at = base_atol;
         for (auto& a : at)
           a *= atol_scale;
+        if (broadcast_atol)
+          at.resize(1);
         st.SetAbsoluteTolerances(at);
       }
       for (std::size_t cidx = 0; cidx < pb.ncells; ++cidx)
@@ -969,9 +993,12 @@ namespace simpl
       Problem pb = pbs[i];
       // consecutive problems differ in air density even when their temperature and pressure coincide
       pb.density_factor.assign(pb.ncells, 1.0 + 0.5 * (double)(i % 2));
-      atol_scale = (i % 2 == 1) ? 0.015625 : 1.0;
+      atol_scale = (i % 4 == 0) ? 4.0 : ((i % 2 == 1) ? 0.015625 : 1.0);
       if (i % 4 == 3)
         pb.T = -pb.T;   // a meaningless but well-defined input: whatever is computed from it is computed afresh
+      if (i % 5 == 4)
+        pb.rtol = 0.0;  // pure absolute error control is a setting like any other
+      broadcast_atol = (c.L == 0 && i % 4 == 1);   // row-major: a one-element tolerance vector applies to every species
       auto fresh = solver.GetState();
       load(fresh, pb);
       solver.CalculateRateConstants(fresh);
